@@ -192,17 +192,22 @@ def readMessage (cfg : Cfg) (tmo : Tmo) (ack sync : Bool) (st : St) : Obs × St 
     let c := r.1 != .lost
     (⟨r.1, st.sock.data.length - r.2.data.length, c⟩, { st with sock := r.2, connected := c })
 
-/-- one step of a history: a read, or a change of the subscription state between reads -/
+/-- one step of a history: a read, a change of the subscription state between reads, or a change of the local
+definition table between reads (`pyrtma.message._msg_defs`: a type id registered again with another layout through
+`@message_def`, a definition added for a type that had none, a definition removed) — every read looks its frame's
+type up in the table *as it is at the time of the read* (`get_msg_cls` is a plain dictionary lookup) -/
 inductive Call where
   | read (tmo : Tmo) (ack sync : Bool)
   | setSub (sub : Sub)
+  | setDefs (defs : List Def)
 deriving Repr, DecidableEq, Inhabited
 
-def runCalls (cfg : Cfg) : List Call → St → List Obs
-  | [], _ => []
-  | .read tmo ack sync :: cs, st =>
+def runCalls : Cfg → List Call → St → List Obs
+  | _, [], _ => []
+  | cfg, .read tmo ack sync :: cs, st =>
     let r := readMessage cfg tmo ack sync st
     r.1 :: runCalls cfg cs r.2
-  | .setSub sub :: cs, st => runCalls cfg cs { st with sub := sub }
+  | cfg, .setSub sub :: cs, st => runCalls cfg cs { st with sub := sub }
+  | cfg, .setDefs defs :: cs, st => runCalls { cfg with defs := defs } cs st
 
 end Pyrtma.ClientRead
